@@ -227,8 +227,13 @@ func (f *Facts) StateDomain(e *Entry, typ common.BLSDomainType, epoch common.Epo
 	must(err)
 	x.domains[[2]uint64{dtypeCode(typ), uint64(epoch)}] = fmt.Sprintf("(%d,%d,%s)", dtypeCode(typ), uint64(epoch), bytesN(d[:]))
 }
+// BlockRootAt: the state-history lookup of gossipval.CheckpointBlockRoot (only defined for slots before the
+// entry's slot and at most SLOTS_PER_HISTORICAL_ROOT back).
 func (f *Facts) BlockRootAt(e *Entry, slot common.Slot) {
 	x := f.ent(e)
+	if e.slot <= slot || e.slot-slot > f.v.W.Spec.SLOTS_PER_HISTORICAL_ROOT {
+		return
+	}
 	r, err := common.GetBlockRootAtSlot(f.v.W.Spec, e.st, slot)
 	if err == nil {
 		x.broots[uint64(slot)] = fmt.Sprintf("(%d,%s)", uint64(slot), rootN(r))
